@@ -1,35 +1,61 @@
 (* C08 — interactive results converge to a fresh filter of the current query (coordinator part).
-   Statements only; proofs live in proofs/CoordProofs.v, CoordFlat.v, CoordMore.v.
-   The matcher-loop theorems (narrowing_sound, loop_fresh, last_request_wins) belong to the C13 package. *)
-From Fzf Require Import Prelude CoordSpec CoordModel CoordFlat CoordProofs CoordMore.
+   Statements only; proofs live in proofs/Coord*.v.
+   The matcher-loop theorems (narrowing_sound, loop_fresh, last_request_wins) belong to the C13 package; here the
+   matcher is "one mailbox slot with the latest request + at most one running scan, published or cancelled". *)
+From Fzf Require Import Prelude CoordSpec CoordModel CoordFlat CoordProofs CoordMore CoordMain CoordProgress.
 Open Scope Z_scope.
 
-(* FULL STATEMENT (not yet proved end to end):
-     forall filt q so n sched, let s := run (init q so n) sched in quiescent s = true ->
-       shown filt s = filter_model filt (cur_cfg s) (cl s) /\ t_count s = length (cl s) /\ r_final (t_merger s) = true.
-   PROVED: the statement for every state that satisfies the invariant `Inv` (23 clauses, proofs/CoordProofs.v);
-   `Inv` holds initially and is preserved by 7 of the 10 labels (reader push / poll / fin, matcher take / publish /
-   cancel, coordinator EvtSearchFin).  MISSING: preservation of `Inv` by LCoordRead, LCoordSearch and LUi
-   (the flat forms of the two handlers needed for it are proved equal to the model in CoordFlat.v; the case
-   analyses were not finished).  The missing steps are explored, not proved: the harness runs random schedules
-   over all ten labels through the extracted model and checks this very conclusion (op 803). *)
-Theorem coordinator_quiescent_partial : forall filt s, Inv s -> quiescent s = true ->
+(* For EVERY schedule (any interleaving of reader pushes / polls / end of input, terminal action lists - typing,
+   toggle-sort, exclude, change-nth, reload, reload-sync, search on/off -, coordinator rounds and matcher steps),
+   any initial query / sort / nth and whatever `filt` computes: in a state where no event is pending, reading has
+   ended and the matcher is idle, the merger on display is the fresh filter of the CURRENT state (query in effect,
+   sort, nth, exclusions valid for the loaded input) over everything that is loaded; it is final; and the count
+   shown is the number of loaded lines.  Caches, coalescing, cancellation are therefore unobservable here. *)
+Theorem coordinator_quiescent : forall filt q so n sched,
+  let s := run (init q so n) sched in
+  quiescent s = true ->
   shown filt s = filter_model filt (cur_cfg s) (cl s) /\ t_count s = length (cl s) /\ r_final (t_merger s) = true.
-Proof. exact quiescent_from_inv. Qed.
-Print Assumptions coordinator_quiescent_partial.
+Proof. exact coordinator_quiescent_proof. Qed.
+Print Assumptions coordinator_quiescent.
 
-(* the invariant holds at the start and along every run of reader / matcher / EvtSearchFin steps *)
-Theorem invariant_internal_steps_partial : forall q so n sched,
-  forallb simple_label sched = true -> Inv (run (init q so n) sched).
-Proof. exact inv_run_simple. Qed.
-Print Assumptions invariant_internal_steps_partial.
+(* the 23-clause invariant holds in every state of every schedule *)
+Theorem invariant_all_schedules : forall q so n sched, Inv (run (init q so n) sched).
+Proof. exact inv_run. Qed.
+Print Assumptions invariant_all_schedules.
 
-(* never_stale: whatever step is taken (any label, any state satisfying the invariant), the merger on display is
-   replaced only by one with a sequence number and a major revision at least as large: a result for an older
-   request / an input that has been replaced never overwrites a newer one. *)
-Theorem never_stale : forall s l, Inv s -> rle (t_merger s) (t_merger (step s l)).
-Proof. exact never_stale_step. Qed.
+(* never_stale: along any schedule, any further run replaces the merger on display only by one with a sequence
+   number and a major revision at least as large: a result for an older request or for an input that has been
+   replaced never overwrites a newer one. *)
+Theorem never_stale : forall q so n sched more,
+  let s := run (init q so n) sched in rle (t_merger s) (t_merger (run s more)).
+Proof. intros q so n sched more s. apply never_stale_runs, inv_run. Qed.
 Print Assumptions never_stale.
+
+(* progress, no lost wake-up: a label that is not enabled does nothing, and when none of the internal labels
+   (reader end, the three coordinator handlers, matcher take/publish) is enabled the state is quiescent - every
+   pending piece of work enables a label; the coordinator's delay/ticks sleep is not a state, it only postpones
+   a coordinator label.  Hence a stuck state of any schedule shows the fresh filter. *)
+Theorem no_lost_wakeup : forall s,
+  (forall l, enabled s l = false -> step s l = s) /\
+  (forallb (fun l => negb (enabled s l)) internal_labels = true -> quiescent s = true).
+Proof. intro s. split; [intro l; apply disabled_noop | apply no_lost_wakeup_proof]. Qed.
+Print Assumptions no_lost_wakeup.
+
+Theorem stuck_means_converged : forall filt q so n sched,
+  let s := run (init q so n) sched in
+  forallb (fun l => negb (enabled s l)) internal_labels = true ->
+  shown filt s = filter_model filt (cur_cfg s) (cl s) /\ t_count s = length (cl s).
+Proof. exact stuck_means_converged_proof. Qed.
+Print Assumptions stuck_means_converged.
+
+(* progress, termination: from every state of every schedule, once the user and the producer stop, the eleven
+   internal steps drain_labels (commands end, rounds run, a queued reload starts and ends, the matcher finishes)
+   reach a quiescent state, which shows the fresh filter of that final state. *)
+Theorem progress : forall filt q so n sched,
+  let s := run (run (init q so n) sched) drain_labels in
+  quiescent s = true /\ shown filt s = filter_model filt (cur_cfg s) (cl s).
+Proof. exact progress_proof. Qed.
+Print Assumptions progress.
 
 (* the code-shaped handlers equal their one-constructor-per-branch forms (used by the proofs; also a readable
    summary of what one coordinator round does to each variable) *)
@@ -55,3 +81,6 @@ Example c08_nonvacuous :
   (quiescent s1 = true /\ r_nth (t_merger s1) = 1 /\ t_nth s1 = 1 /\ r_query (t_merger s1) = [98] /\ r_items (t_merger s1) = [0; 1; 2]) /\
   (quiescent s2 = true /\ r_sort (t_merger s2) = false /\ t_sort s2 = false).
 Proof. exact fixed_rules_same_schedules. Qed.
+
+(* Open items: none of the C08 coordinator statements is left unproved.  (Not part of this file: the matcher-loop
+   theorems of the C13 package; timing - goroutine scheduling, timers - is explored by the harness, not proved.) *)
